@@ -170,6 +170,33 @@ func checkSpendPasses(c *Ctx, rule string, leaseOnly bool) {
 		if !leaseOnly {
 			c.Check(rule, "pass-consults-unconfirmed-spender:"+sp.name, sp.fn.Pos(), nSpent > 0, "this spendability pass never consults the unconfirmed-spender index (existsRawUnminedInput): outputs spent by an unconfirmed tx are counted/offered")
 		}
+		// the lease test looks in the store's own namespace: its bucket argument is the namespace the pass was given
+		// (a parameter or captured parameter), not a nested bucket of it (the lease bucket lives under the namespace
+		// root; looked up under any other bucket it does not exist and "nothing is leased")
+		for i, call := range callsNamed(sp.fn, "isLockedOutput") {
+			if len(call.Call.Args) < 1 {
+				continue
+			}
+			okNs := false
+			for _, o := range (&Slicer{P: p}).Origins(call.Call.Args[0]) {
+				switch x := o.(type) {
+				case *ssa.Parameter:
+					okNs = true
+				case *ssa.FreeVar:
+					if _, isP := freeVarRoot(x).(*ssa.Parameter); isP {
+						okNs = true
+					}
+				case *ssa.Call:
+					okNs = false
+				}
+				if _, isCall := o.(*ssa.Call); isCall {
+					okNs = false
+					break
+				}
+			}
+			c.Check(rule, fmt.Sprintf("lease-test-in-store-namespace:%s#%d", sp.name, i+1), call.Pos(), okNs,
+				"isLockedOutput is handed a bucket other than the store's namespace (e.g. the bucket being iterated): the lease bucket is not found there, so every output of this pass is treated as not leased")
+		}
 		// the lease test must ask about the output this iteration is looking at: the outpoint variable handed to
 		// isLockedOutput is (re)written in this pass on every path to the test (a variable shared with an earlier
 		// pass still holds that pass's last outpoint)
@@ -289,6 +316,7 @@ func runC01(c *Ctx) {
 	p := c.P
 	checkSpendPasses(c, "C01-R1", false)
 	checkSeekHeightNonNegative(c, "C01-R1")
+	checkArithmeticAccumulators(c, "C01-R2", "wtxmgr")
 
 	// fetchCredits flag bindings
 	fc := p.Func("wtxmgr", "Store", "fetchCredits")
